@@ -617,6 +617,9 @@ class E:
 # contexts
 
 class Violation:
+    neg = None
+    ndecl = None
+
     def __init__(self, label, key, values, detail):
         self.label = label
         self.key = key
@@ -948,8 +951,25 @@ class Ctx(_Base):
             model = self.get_model()
         v = Violation(label, key or label, self._values(model),
                       detail if detail is None else str(detail))
+        v.neg = None if type(cond) is bool else neg
+        v.ndecl = len(self.decl)
         self.path_violations.append(v)
         return False
+
+    def complete_violations(self):
+        """Inputs declared after a violation was recorded are missing from
+        its model: re-solve under the final path condition so that the
+        replay gets a complete assignment."""
+        for v in self.path_violations:
+            if getattr(v, "ndecl", None) == len(self.decl):
+                continue
+            try:
+                if v.neg is None:
+                    v.values = self._values(self.get_model())
+                elif self._check(v.neg) == z3.sat:
+                    v.values = self._values(self.solver.model())
+            except (PathEnd, EngineUnsupported):
+                pass
 
     def fail(self, label, key=None, detail=None):
         return self.prove(False, label, key, detail)
@@ -1033,6 +1053,8 @@ class ConcreteCtx(_Base):
     def fresh(self, name, lo, hi):
         self.used.add(name)
         if name not in self.vals:
+            if self.path_violations:
+                return lo      # the violation being replayed is already confirmed
             raise ReplayMismatch("no value for input %r" % name)
         v = self.vals[name]
         if not (lo <= v <= hi):
@@ -1042,6 +1064,8 @@ class ConcreteCtx(_Base):
     def fresh_bool(self, name):
         self.used.add(name)
         if name not in self.vals:
+            if self.path_violations:
+                return False
             raise ReplayMismatch("no value for input %r" % name)
         return bool(self.vals[name])
 
@@ -1158,6 +1182,8 @@ def explore(fn, shard=None, max_paths=None, deadline=None, on_path=None,
                     obs = [(n, ctx.evaluate(v, model)) for n, v in ctx.observed]
                     if isinstance(label, str) and "\x01" in label:
                         label = ctx.render(label, model)
+                    if ctx.path_violations:
+                        ctx.complete_violations()
                     ctx.violations.extend(ctx.path_violations)
                     if on_path is not None:
                         on_path(PathResult(label, vals, obs,
